@@ -153,6 +153,11 @@ def worker_loop(ctx, A, W, RULE, drain_liveness=False):
     rt = W.term(R)
     rres = W.origin_call(R, rt)
     pair = ("field", ("variant", rres, "Ok"), "0")
+    unwrapped = None
+    for b, t in W.calls():
+        if t["callee"] in ("std::result::Result::<T, E>::unwrap", "std::result::Result::<T, E>::expect") and strip_site(W.op_origin(t["args"][0])) == strip_site(rres):
+            unwrapped = (b, W.origin_call(b, t))
+            pair = unwrapped[1]
     ends = set(W.return_blocks()) | {R}
     paths = enum_paths(W, start=R, ends=ends)
     ctx.analysed["paths"] += len(paths)
@@ -164,6 +169,8 @@ def worker_loop(ctx, A, W, RULE, drain_liveness=False):
         atoms = path_atoms(W, p)
         okatom = [a for a in atoms if a[0] == "enum" and strip_site(a[1]) == strip_site(rres)]
         calls = path_calls(W, p)
+        if not okatom and unwrapped is not None and any(b == unwrapped[0] for b in p):
+            okatom = [("enum", rres, ("Ok",), unwrapped[0])]     # `recv().unwrap()` / expect: continuing means Ok
         dones = [(b, t) for b, t in calls if t.get("rpath") in A.done_fns]
         if not okatom or okatom[0][2] != ("Ok",):
             if dones:
